@@ -15,7 +15,7 @@ def _ev(e, t, i=0, ok=False, cancelled=False, tasks=0):
     return {"e": e, "t": int(round(t * 1000)), "i": i, "ok": ok, "cancelled": cancelled, "tasks": tasks}
 
 
-def run_scenario(outcomes, lifetimes, close_iter, cfg, horizon=30.0, tail=40.0, slow=3.0):
+def run_scenario(outcomes, lifetimes, close_iter, cfg, horizon=30.0, tail=40.0, slow=3.0, runs=1, close_iter2=None, idle_close=False):
     """One execution of the real ConnectionManager. Events are recorded by harness-owned fakes only."""
     import han.meter_connection as mc
     from han.hdlc import HdlcFrameReader
@@ -111,22 +111,40 @@ def run_scenario(outcomes, lifetimes, close_iter, cfg, horizon=30.0, tail=40.0, 
 
     orig = loop._run_once
 
+    run_no = [0]
+    base_iter = [0]
+
     def hooked():
-        if close_iter is not None and loop.iterations == close_iter:
+        if run_no[0] == 0 and close_iter is not None and loop.iterations == close_iter:
+            do_close()
+        if run_no[0] == 1 and close_iter2 is not None and loop.iterations == base_iter[0] + close_iter2:
             do_close()
         orig()
 
     loop._run_once = hooked
 
     async def main():
-        lt = asyncio.ensure_future(cm.connect_loop())
-        loop.call_later(horizon, do_close)   # always armed: the run must end
-        try:
-            await lt
-        except Exception as ex:  # noqa: BLE001
-            err[0] = type(ex).__name__
-        ev.append(_ev("returned", loop.time()))
-        ret_iter[0] = loop.iterations
+        for r in range(runs):
+            run_no[0] = r
+            if r > 0:
+                if idle_close:                      # close() while no connect_loop() is running
+                    ev.append(_ev("close", loop.time()))
+                    try:
+                        cm.close()
+                    except Exception as ex:  # noqa: BLE001
+                        err[0] = "close:" + type(ex).__name__
+                closed[0] = False
+                base_iter[0] = loop.iterations
+                ev.append(_ev("start", loop.time()))
+            lt = asyncio.ensure_future(cm.connect_loop())
+            loop.call_later(horizon, do_close)   # always armed: the run must end
+            try:
+                await lt
+            except Exception as ex:  # noqa: BLE001
+                err[0] = type(ex).__name__
+            ev.append(_ev("returned", loop.time()))
+            if r == 0:
+                ret_iter[0] = loop.iterations
         await asyncio.sleep(tail)
         ev.append(_ev("end", loop.time(), tasks=ntasks() - 1))
 
@@ -155,7 +173,7 @@ def trace_of(outcomes, lifetimes, close_iter, cfg, origin, **kw):
     return {"id": stable_id("conn", outcomes, lifetimes, close_iter, cfg, kw), "canary": "", "origin": origin,
             "cfg": {k: cfg[k] for k in ("max_delay", "threshold", "sleep")},
             "script": {"outcomes": list(outcomes), "lifetimes": [-1 if x is None else x for x in lifetimes],
-                       "close_iter": -1 if close_iter is None else close_iter, "kw": kw},
+                       "close_iter": -1 if close_iter is None else close_iter, "kw": {k: (-1 if v is None else v) for k, v in kw.items()}},
             "error": err, "events": ev}, its, ret_it
 
 
@@ -302,7 +320,7 @@ def models(chk: Check):
     with open(path, "w") as f:
         f.write("SPECIFICATION Spec\nCONSTANTS\n Fixed = TRUE\n"
                 f" MaxAtt = {3 if quick else 4}\n Horizon = {12 if quick else 20}\n SlowLat = 2\n MaxDelay = 4\n BrkThr = 3\n BrkSleep = 3\n"
-                " ModelTaskBound = 3\nINVARIANT NoContractViolation\nINVARIANT BoundedTasks\nINVARIANT AllClosed\nINVARIANT NoOrphan\n"
+                f" ModelTaskBound = 3\n MaxRuns = {1 if quick else 2}\nINVARIANT NoContractViolation\nINVARIANT BoundedTasks\nINVARIANT AllClosed\nINVARIANT NoOrphan\n"
                 "CHECK_DEADLOCK FALSE\n")
     chk.model("conn", "ConnMgrTasks", path, workers=16, coverage=True, timeout=1500)
 
@@ -316,10 +334,11 @@ def run_c17(chk: Check) -> int:
         traces += t4
         nexec += n4
     else:
-        t5, n5 = collect(chk, 5, 25)
+        t5, n5 = collect(chk, 5, 9)
         traces += t5
         nexec += n5
     validate_against_task_model(chk, every=3 if quick else 1, nscripts=96 if quick else None)
+    traces += restart_traces(chk, 60 if quick else 4000)
     cyc = [100, 1000] if quick else [100, 1000, 10000]
     with mp.Pool(8) as pool:
         longs = pool.map(_long_job, [(c, p, CFGS[0]) for c in cyc for p in ("fail_ok_loss", "ok_loss", "mixed")])
@@ -345,7 +364,8 @@ def replay_any(chk: Check, rp: dict, prefixes) -> int:
         nt = _long_job((sc["long"][0], sc["long"][1], dict(t["cfg"])))
     else:
         lifetimes = [None if x == -1 else x for x in sc["lifetimes"]]
-        nt, _, _ = trace_of(sc["outcomes"], lifetimes, None if sc["close_iter"] == -1 else sc["close_iter"], dict(t["cfg"]), "replay", **sc.get("kw", {}))
+        kw = {k: (None if (v == -1 and k in ("close_iter2",)) else v) for k, v in sc.get("kw", {}).items()}
+        nt, _, _ = trace_of(sc["outcomes"], lifetimes, None if sc["close_iter"] == -1 else sc["close_iter"], dict(t["cfg"]), "replay", **kw)
     v = chk.judge("conn", "Trace_Conn", [nt], what="replay")[0]
     for fl in v["fails"]:
         if fl["c"].startswith(prefixes):
@@ -401,9 +421,9 @@ def run_c18(chk: Check) -> int:
                           f"reports {t['delays'][v['at'] - 1] if v['at'] else t['init']} (clause {v['clause']})",
                           {"kind": "backoff-trace", "trace": t, "verdict": v})
     # manager pacing: outcome sequences to length 5/6 (8 sampled), loss patterns
-    traces2, nexec = collect(chk, 3 if quick else 4, 4)
+    traces2, nexec = collect(chk, 3 if quick else 4, 4 if quick else 2)
     scripts = []
-    for k in range(40 if quick else 400):
+    for k in range(40 if quick else 3000):
         n = chk.rng.randint(5, 8)
         scripts.append((tuple(chk.rng.choice(["fail", "fail", "slowfail", "ok"]) for _ in range(n)),
                         tuple(chk.rng.choice([0.5, 1, 2, 4, None]) for _ in range(n)), chk.rng.choice(CFGS)))
@@ -543,3 +563,26 @@ def validate_against_task_model(chk: Check, every: int = 3, nscripts: int | None
     chk.cov["task_model_validation"] = {"traces": acc + rej, "accepted": acc, "rejected_as_drift": rej, "tlc_states": states}
     chk.cov["traces_validated_against_impl"] += acc + rej
     return acc, rej
+
+
+def _job_restart(args):
+    import logging
+    logging.disable(logging.CRITICAL)
+    out = []
+    for outcomes, lifetimes, cfg, k1, k2, idle in args:
+        t, _, _ = trace_of(outcomes, lifetimes, k1, cfg, f"restart:close@{k1},{k2},idle={idle}", horizon=12.0, runs=2, close_iter2=k2, idle_close=idle)
+        out.append(t)
+    return out
+
+
+def restart_traces(chk: Check, n: int):
+    """connect_loop() called a second time on the same manager after close() (and close() between the two runs)."""
+    rng = chk.rng
+    jobs = []
+    for _ in range(n):
+        m = rng.randint(2, 6)
+        jobs.append((tuple(rng.choice(OUTCOMES) for _ in range(m)), tuple(rng.choice([None, 1, 2, 4]) for _ in range(m)), rng.choice(CFGS),
+                     rng.choice([None, rng.randint(0, 40)]), rng.choice([None, rng.randint(0, 40)]), rng.random() < 0.25))
+    with mp.Pool(16) as pool:
+        res = pool.map(_job_restart, [jobs[j::16] for j in range(16)])
+    return [t for r in res for t in r]
